@@ -14,10 +14,13 @@ type counters struct {
 	size   uint64
 }
 
+// Add registers the object size. If the address is already known, its previous
+// size is replaced, not accumulated.
 func (x *counters) Add(addr oid.Address, size uint64) {
 	x.mu.Lock()
 	defer x.mu.Unlock()
 
+	x.size -= x.objMap[addr]
 	x.size += size
 	x.objMap[addr] = size
 }
